@@ -27,12 +27,28 @@ type (
 
 func init() { streams["keytohash"] = streamKeyToHash }
 
+// intSeen[type][(h,c)] = the key (as the canonical uint64 `want`) that produced the pair: what the
+// property needs of the integer kinds is that two distinct keys of one type never share both
+// hashes (the exact value — identity — is pinned by the generated kernels of RV/Props/KeyHash.lean,
+// not here: `uint64(uint32(k))` for an int32 key is a harmless rewrite).
+var intSeen = map[string]map[[2]uint64]uint64{}
+
 func checkInt[K z.Key](r *Run, name string, k K, want uint64) {
 	h, c := z.KeyToHash(k)
+	h2, c2 := z.KeyToHash(k)
 	r.Count("int_" + name)
-	if h != want || c != 0 {
-		r.Fail("C01", fmt.Sprintf("z.KeyToHash(%s(%v)) = (%d,%d), want (%d,0): distinct keys of this type can be confused", name, k, h, c, want), name)
+	if h != h2 || c != c2 {
+		r.Fail("C01", fmt.Sprintf("z.KeyToHash(%s(%v)) is not deterministic: (%d,%d) then (%d,%d)", name, k, h, c, h2, c2), name)
 	}
+	m := intSeen[name]
+	if m == nil {
+		m = map[[2]uint64]uint64{}
+		intSeen[name] = m
+	}
+	if prev, ok := m[[2]uint64{h, c}]; ok && prev != want {
+		r.Fail("C01", fmt.Sprintf("z.KeyToHash maps the distinct %s keys %d and %d (as uint64) to the same pair (%d,%d): a value stored under one is returned for the other", name, prev, want, h, c), name)
+	}
+	m[[2]uint64{h, c}] = want
 }
 
 func streamKeyToHash(r *Run) {
@@ -105,6 +121,28 @@ func streamKeyToHash(r *Run) {
 			structured = append(structured, le, be)
 		}
 	}
+	// long keys: same length, differing in ONE byte at the front, in the middle, around every
+	// power-of-two offset and at the very end (a hash that looks only at a prefix, a suffix, a sample
+	// or the length confuses them)
+	for _, L := range []int{31, 32, 33, 63, 64, 65, 127, 128, 129, 255, 256, 257, 511, 512, 513, 520, 1023, 1024, 1025, 4095, 4096, 4097, 65535, 65536, 65537, 1 << 20} {
+		base := make([]byte, L)
+		for i := range base {
+			base[i] = byte(r.Rng.Intn(256))
+		}
+		structured = append(structured, base)
+		pos := map[int]bool{0: true, 1: true, L / 2: true, L - 2: true, L - 1: true}
+		for p := 4; p < L; p *= 2 {
+			pos[p-1], pos[p], pos[p+1] = true, true, true
+		}
+		for p := range pos {
+			if p >= 0 && p < L {
+				v := append([]byte{}, base...)
+				v[p] ^= 0x5a
+				structured = append(structured, v)
+			}
+		}
+		structured = append(structured, append(append([]byte{}, base...), 0), base[:L-1]) // one longer, one shorter
+	}
 	seenB := map[[2]uint64]string{}
 	for _, b := range structured {
 		h, c := z.KeyToHash(b)
@@ -114,7 +152,17 @@ func streamKeyToHash(r *Run) {
 			r.Fail("C01", fmt.Sprintf("z.KeyToHash differs between []byte and string for %q: (%d,%d) vs (%d,%d)", b, h, c, hs, cs), fmt.Sprintf("%q", b))
 		}
 		if prev, ok := seenB[[2]uint64{h, c}]; ok && prev != string(b) {
-			r.Fail("C01", fmt.Sprintf("distinct keys %q and %q share both hashes (%d,%d): a value stored under one is returned for the other", prev, string(b), h, c), fmt.Sprintf("%q vs %q", prev, string(b)))
+			d := 0
+			for d < len(prev) && d < len(b) && prev[d] == b[d] {
+				d++
+			}
+			show := func(x string) string {
+				if len(x) > 24 {
+					return fmt.Sprintf("%q…(%d bytes)", x[:24], len(x))
+				}
+				return fmt.Sprintf("%q", x)
+			}
+			r.Fail("C01", fmt.Sprintf("distinct keys %s and %s (first difference at byte %d) share both hashes (%d,%d): a value stored under one is returned for the other", show(prev), show(string(b)), d, h, c), fmt.Sprintf("lengths %d and %d, first difference at byte %d", len(prev), len(b), d))
 		}
 		seenB[[2]uint64{h, c}] = string(b)
 	}
